@@ -10,7 +10,10 @@ import (
 	"math/big"
 	"reflect"
 	"strconv"
+	"strings"
 	"time"
+
+	"github.com/Oudwins/zog/parsers/zjson"
 
 	z "github.com/Oudwins/zog"
 
@@ -256,6 +259,14 @@ func coerceGrid(r *rng.R, n int) []coerceCase {
 	return out
 }
 
+// d32Probe: the fixed scenario of known finding D32; true when the number was silently changed
+func d32Probe() bool {
+	type D struct{ N int64 }
+	var d D
+	errs := z.Struct(z.Schema{"n": z.Int64()}).Parse(zjson.Decode(strings.NewReader(`{"n":9007199254740993}`)), &d)
+	return errs == nil && d.N != 9007199254740993
+}
+
 func streamCoerce(seed uint64, n int, driver string) (*Summary, error) {
 	sum := newSummary("coerce", seed)
 	sum.Rule = "grid: 5 numeric kinds x (every Go integer kind at +-2^k+-1 for k in {7,15,24,31,32,53,62}, float64/float32 at +-2^k and neighbours, NaN/Inf/-0/subnormals, 50 string forms) + bool/string/time tables (exhaustive over the grid) + random floats/decimal-exponent strings; non-trivial = the value is present (not nil/blank); distinct = distinct (kind, layout, value)"
@@ -329,6 +340,12 @@ func streamCoerce(seed uint64, n int, driver string) (*Summary, error) {
 		}()]++
 	}
 	sum.Exhaustive = false
+	// known finding D32: a JSON integer beyond 2^53 is rounded by encoding/json's float64 decoding before
+	// zog sees it, and is then stored in an Int64 destination without an issue
+	if d32Probe() {
+		sum.Known["C18"] = appendUnique(sum.Known["C18"], "D32 a JSON integer beyond 2^53 (e.g. 9007199254740993) reaches the coercer as the rounded float64 (zjson decodes numbers to float64) and is stored in an Int64 destination as a different number, without an issue")
+		sum.Hist["known_D32_hits"]++
+	}
 	_ = z.Int
 	return sum, nil
 }
